@@ -180,3 +180,86 @@ def compare_query(qid, qtext, impl, impl_parsed, model, k_from=None):
             dis.append('row differs for tuple %s: model=%s impl=%s' % (str(t)[:80], mrow, cands[:1]))
             break
     return dis
+
+
+def render_compare(graph_file, queries, res_json, res_text, model, workdir, k_of):
+    """byte-exact comparison of cmd.processQuery's JSON document and text report with Engine/Render.v.
+    queries: (qid, text); res_json/res_text: qid -> (outcome, payload); model: run_model output; k_of: qid -> #FROM items.
+    -> (stats Counter, list of disagreement strings)"""
+    from collections import Counter
+    import json as _json
+    stats, dis = Counter(), []
+    items = []
+    for qid, q in queries:
+        m = model.get(qid) or {}
+        oc, payload = res_json.get(qid, ('missing', ''))
+        if oc != 'ok' or m.get('parse') != 'accept' or m.get('infrag') != '1':
+            continue
+        if '�' in payload:
+            stats['render_skipped_invalid_utf8'] += 1
+            continue
+        try:
+            d = _json.loads(payload)
+        except Exception:
+            continue
+        rs = d.get('result_set') or []
+        k = k_of(qid, m)
+        if not k or len(rs) % k:
+            continue
+        keys = []
+        for i in range(len(rs) // k):
+            keys.append('|'.join('x%s:%d:x%s' % (e['file'].encode().hex(), e['line'], e['code'].encode().hex()) for e in rs[k * i:k * i + k]))
+        items.append((qid, q, keys, payload))
+    if not items:
+        return stats, dis
+    qf = workdir + '/render_in.txt'
+    with open(qf, 'w') as f:
+        for qid, q, keys, _ in items:
+            f.write('%s x%s %s\n' % (qid, q.encode('utf-8').hex(), ','.join('x' + kk.encode().hex() for kk in keys) or '-'))
+    with open(qf, 'rb') as fin:
+        p = subprocess.run([B + '/model', 'render', graph_file], stdin=fin, capture_output=True, timeout=3000)
+    if p.returncode != 0:
+        return stats, ['model render failed: ' + p.stderr.decode(errors='replace')[-300:]]
+    rj, blocks = {}, {}
+    for line in p.stdout.decode().splitlines():
+        w = line.split(' ')
+        if w[0] == 'RENDER':
+            rj[w[1]] = dict(kv.split('=', 1) for kv in w[2:] if '=' in kv) if len(w) > 2 and '=' in w[2] else {'status': w[2]}
+        elif w[0] == 'RBLOCK':
+            blocks.setdefault(w[1], []).append(w[2])
+    for qid, q, keys, payload in items:
+        r = rj.get(qid, {})
+        if 'json' not in r:
+            stats['render_order_unmatched'] += 1
+            continue
+        if r['json'] == '~':
+            stats['render_out_of_fragment_values'] += 1
+            continue
+        stats['render_json_compared'] += 1
+        mj = bytes.fromhex(r['json'][1:])
+        if mj != payload.encode('utf-8'):
+            a, b = mj.decode('utf-8', 'replace'), payload
+            i = next((j for j in range(min(len(a), len(b))) if a[j] != b[j]), min(len(a), len(b)))
+            dis.append('JSON document differs from Engine/Render.v at byte %d for query %r: model ...%r implementation ...%r' % (i, q[:200], a[max(0, i - 30):i + 40], b[max(0, i - 30):i + 40]))
+        # text report: a concatenation of the model's per-combination blocks in some order
+        oc, tpay = res_text.get(qid, ('missing', ''))
+        if oc != 'ok' or '�' in tpay:
+            continue
+        bl = [bytes.fromhex(x[1:]) for x in blocks.get(qid, []) if x != '~']
+        if len(bl) != len(blocks.get(qid, [])):
+            continue
+        rest = tpay.encode('utf-8')
+        pool = sorted(bl, key=len, reverse=True)
+        okt = True
+        while rest and pool:
+            hit = next((j for j, b_ in enumerate(pool) if b_ and rest.startswith(b_)), None)
+            if hit is None:
+                okt = False
+                break
+            rest = rest[len(pool[hit]):]
+            pool.pop(hit)
+        stats['render_text_compared'] += 1
+        if not okt or rest or any(pool):
+            want = pool[0].decode('utf-8', 'replace')[:160] if pool else ''
+            dis.append('text report is not the concatenation of the blocks of Engine/Render.v for query %r: remaining implementation text %r; an unused model block starts %r' % (q[:200], rest[:160].decode('utf-8', 'replace'), want))
+    return stats, dis
